@@ -66,3 +66,17 @@ pub fn oracle_for(bytes: &[u8]) -> Option<String> {
         Some(entries.join(";"))
     }
 }
+
+/// The table for ONE top-level COMPRESSED term of any size (`131, 80, declared, zlib stream`): just that section's entry,
+/// with no size limit and no scan of the inflated bytes (used for large payloads made of binaries and integers, whose
+/// inflated form holds no nested compressed section or text float at a term position).
+pub fn oracle_for_top_compressed(bytes: &[u8]) -> Option<String> {
+    if bytes.len() < 6 || bytes[0] != 131 || bytes[1] != 80 {
+        return None;
+    }
+    let z = &bytes[6..];
+    let mut d = flate2::read::ZlibDecoder::new(z);
+    let mut out = Vec::new();
+    (&mut d).take(1 << 27).read_to_end(&mut out).ok()?;
+    Some(format!("z:{}:{}:{}", if z.is_empty() { "-".into() } else { hex(z) }, if out.is_empty() { "-".into() } else { hex(&out) }, d.total_in()))
+}
